@@ -20,7 +20,7 @@ pub struct TraceCase {
     pub extrapolating: bool,
 }
 
-fn trace_strategy(_tier: Tier) -> BoxedStrategy<TraceCase> {
+pub fn trace_strategy(_tier: Tier) -> BoxedStrategy<TraceCase> {
     (
         proptest::collection::vec(prop_oneof![2 => Just(0u64), 3 => 1u64..=3, 5 => 1u64..=40], 1..24),
         prop_oneof![1 => 1usize..=2, 6 => 3usize..=8],
